@@ -18,6 +18,7 @@ import (
 	"flag"
 	"fmt"
 	"io"
+	"net/url"
 	"os"
 	"path/filepath"
 	"strings"
@@ -70,12 +71,21 @@ func (f *c12Flags) Parse(usage func()) []string {
 }
 
 type c12Fetcher struct {
-	p   *profile.Profile
-	src string
+	canon string
+	src   string
 }
 
+// Fetch hands over a fresh in-memory copy per source (sources are fetched concurrently).
 func (f c12Fetcher) Fetch(src string, d, t time.Duration) (*profile.Profile, string, error) {
-	return f.p, f.src, nil
+	p, err := ParseCanon(f.canon)
+	if err != nil {
+		return nil, "", err
+	}
+	if p.PeriodType == nil {
+		// as a decoded profile.proto has it (Merge of several sources dereferences it)
+		p.PeriodType = &profile.ValueType{}
+	}
+	return p, f.src, nil
 }
 
 type c12WC struct{ *bytes.Buffer }
@@ -123,8 +133,7 @@ type c12DrvRun struct {
 
 func c12DriverOnce(cs c12Case, mode string) c12DrvRun {
 	var run c12DrvRun
-	p, err := ParseCanon(cs.Profile)
-	if err != nil {
+	if _, err := ParseCanon(cs.Profile); err != nil {
 		run.err = "harness: " + err.Error()
 		return run
 	}
@@ -143,11 +152,14 @@ func c12DriverOnce(cs c12Case, mode string) c12DrvRun {
 	fs := flag.NewFlagSet("pprof", flag.ContinueOnError)
 	fs.SetOutput(io.Discard)
 	args := []string{"-proto", "-output=out", "-symbolize=" + mode, "c12-source"}
+	for i := 1; i < cs.NSrc; i++ {
+		args = append(args, fmt.Sprintf("c12-source-%d", i+1))
+	}
 	run.panic = safely(func() {
 		e := driver.PProf(&plugin.Options{
 			Writer:        w,
 			Flagset:       &c12Flags{fs: fs, args: args},
-			Fetch:         c12Fetcher{p, src},
+			Fetch:         c12Fetcher{cs.Profile, src},
 			Obj:           tool,
 			UI:            &c12UI{},
 			HTTPTransport: poster,
@@ -245,17 +257,57 @@ func c12RunDriver(c *Ctx, cs c12Case) (nontrivial bool) {
 	// the output (also of -symbolize=none) has the input's mapping table and location→mapping
 	// assignment (a location without mapping stays without). Only for an input without ANY mapping
 	// does the driver add its documented fake mapping; then the two runs are compared with each other.
+	// mapping File / BuildID: what the fetch path may do to them is DOCUMENTED — a mapping with neither
+	// build id nor file, fetched from a URL, temporarily carries the source URL as its file and gets no
+	// file back (collectMappingSources / unsourceMappings). Everything else keeps its names. (A mapping
+	// WITHOUT build id whose own file name parses as an absolute URL cannot be told apart from that
+	// trick by the code as it is and is exempted here.)
+	urlLike := func(m *profile.Mapping) bool {
+		if m.BuildID != "" || filepath.VolumeName(m.File) != "" {
+			return false
+		}
+		u, err := url.Parse(m.File)
+		return err == nil && u.IsAbs()
+	}
+	multi := cs.NSrc > 1
 	vsInput := func(which string, out *profile.Profile) {
 		if len(input.Mapping) == 0 {
+			return
+		}
+		if multi {
+			// several sources are merged (mappings deduplicated and renumbered): every mapping of the
+			// output must still carry a (file, build id) pair of the input
+			have := map[[2]string]bool{}
+			for _, m := range input.Mapping {
+				have[[2]string{m.File, m.BuildID}] = true
+				if urlLike(m) {
+					have[[2]string{"", ""}] = true
+				}
+			}
+			for _, m := range out.Mapping {
+				if !have[[2]string{m.File, m.BuildID}] {
+					c.Violation(sig+"tables/mapping-file-differs-from-input", fmt.Sprintf("`pprof -proto -symbolize=%s` (%d sources): mapping with file %q build id %q is not a mapping of the fetched profiles", which, cs.NSrc, m.File, m.BuildID), cs)
+				}
+			}
 			return
 		}
 		im, _, il := c12Tables(input)
 		om, _, ol := c12Tables(out)
 		if im != om {
 			c.Violation(sig+"tables/mapping-table-differs-from-input", fmt.Sprintf("`pprof -proto -symbolize=%s`: ids or ranges of the mapping table differ from the fetched profile's (%d mappings in, %d out)", which, len(input.Mapping), len(out.Mapping)), cs)
+			return
 		}
 		if il != ol {
 			c.Violation(sig+"tables/location-mapping-differs-from-input", "`pprof -proto -symbolize="+which+"`: id, mapping (nil stays nil) or address of a location differ from the fetched profile's", cs)
+		}
+		for i, m := range input.Mapping {
+			o := out.Mapping[i]
+			if o.BuildID != m.BuildID {
+				c.Violation(sig+"tables/mapping-buildid-differs-from-input", fmt.Sprintf("`pprof -proto -symbolize=%s`: build id of mapping %d changed from %q to %q", which, m.ID, m.BuildID, o.BuildID), cs)
+			}
+			if o.File != m.File && !(urlLike(m) && o.File == "") {
+				c.Violation(sig+"tables/mapping-file-differs-from-input", fmt.Sprintf("`pprof -proto -symbolize=%s`: file of mapping %d (build id %q) changed from %q to %q", which, m.ID, m.BuildID, m.File, o.File), cs)
+			}
 		}
 	}
 	if none.err != "" {
@@ -437,6 +489,11 @@ func c12DriverProfile(r *Rng) *profile.Profile {
 			m.File = r.Pick(c12Files[:3])
 			m.HasFunctions, m.HasFilenames, m.HasLineNumbers, m.HasInlineFrames = false, false, false, false
 		}
+		// adversarial file names, each with and without a build id
+		if r.Chance(45) {
+			m.File = r.Pick(c12AdvFiles)
+			m.BuildID = r.Pick([]string{"", "", "abc123", "ff00", "0123456789abcdef"})
+		}
 	}
 	for _, l := range p.Location {
 		if l.Mapping != nil && !l.Mapping.HasFunctions && r.Chance(80) {
@@ -445,6 +502,10 @@ func c12DriverProfile(r *Rng) *profile.Profile {
 	}
 	return p
 }
+
+var c12AdvFiles = []string{`C:\svc\server.exe`, "x:y", "a:b:c", "file:///usr/bin/app", "jar:file:/opt/app.jar!/lib/x.so", "http://host/path/bin", "https://cdn.example/x.so",
+	"mailto:ops", "scheme://", "rel/path/bin", "./a.out", "", "", "/usr/bin/my app", "/opt/\u00fcn\u00ef/b\u00efn", "/opt/\xff\xfe/bin", "[vdso]", "//anon", "/usr/lib/libfoo.so (deleted)",
+	"/memfd:jit (deleted)", "/tmp/has:colon", "%zz", ":nocolon", "http://pproftest.local/profilez", "HTTP://UPPER/x"}
 
 func c12GenDriverCase(r *Rng) c12Case {
 	p := c12DriverProfile(r)
@@ -492,6 +553,9 @@ func c12GenDriverCase(r *Rng) c12Case {
 		cs.Src = hexTok([]byte("http://pproftest.local/profilez"))
 	}
 	cs.Sources = "0"
+	if r.Chance(20) {
+		cs.NSrc = 2 + r.Intn(2)
+	}
 	return cs
 }
 
